@@ -8,6 +8,8 @@ import (
 
 	erpc "github.com/henrylee2cn/erpc/v6"
 	"github.com/henrylee2cn/erpc/v6/plugin/auth"
+	"github.com/henrylee2cn/erpc/v6/plugin/ignorecase"
+	"github.com/henrylee2cn/erpc/v6/plugin/secure"
 	"github.com/henrylee2cn/erpc/v6/plugin/proxy"
 
 	"simrt"
@@ -33,7 +35,7 @@ type sentinelSnap map[string][3]string
 func snapSentinels() sentinelSnap {
 	out := sentinelSnap{}
 	for k, st := range erpc.VerifSentinels() {
-		cause := ""
+		cause := "<nil>" // a nil cause and an empty one are different states of the status object
 		if c := st.Cause(); c != nil {
 			cause = c.Error()
 		}
@@ -48,7 +50,7 @@ func runC15(t *testing.T, seed uint64, m *Mask) *Report {
 	sc, nc, r := swarm(seed, m)
 	opt := world.Options{Seed: seed, Sim: sc, Net: nc}
 	proto := []string{"raw", "raw", "json", "pb", "thrift-binary"}[r.Intn(5)]
-	kinds := []string{"ok", "notfound", "badbody", "panic", "veto", "closed_call", "cut_pending", "dial_fail", "proxy_ok", "proxy_ok", "proxy_backend_closed", "proxy_push_backend_closed", "proxy_backend_cut", "proxy_push_ok", "reply_write_fails", "handshake_timeout", "plugin_panics_on_error_reply", "relay_closed_status"}
+	kinds := []string{"ok", "notfound", "badbody", "panic", "veto", "closed_call", "cut_pending", "dial_fail", "proxy_ok", "proxy_ok", "proxy_backend_closed", "proxy_push_backend_closed", "proxy_backend_cut", "proxy_push_ok", "reply_write_fails", "handshake_timeout", "plugin_panics_on_error_reply", "relay_closed_status", "shipped_plugins_notfound", "shipped_plugins_error", "shipped_plugins_ok"}
 	n := 3 + r.Intn(13)
 	var hist []string
 	for i := 0; i < n; i++ {
@@ -87,7 +89,11 @@ func runC15(t *testing.T, seed uint64, m *Mask) *Report {
 					fmt.Sscan(b[0], &code)
 					st.SetCode(code)
 					st.SetMsg(b[1])
-					st.SetCause(b[2])
+					if b[2] == "<nil>" {
+						st.SetCause(nil)
+					} else {
+						st.SetCause(b[2])
+					}
 				}
 			}
 		}()
@@ -129,6 +135,18 @@ func runC15(t *testing.T, seed uint64, m *Mask) *Report {
 		direct, _, directConn, _ := e.ServePair(cli, backend, pf, pf)
 		viaProxy, _, _, _ := e.ServePair(cli, prox, pf, pf)
 		var authSrv erpc.Peer
+		// a serving peer that carries shipped plugins as peer-level (global) plugins: they see every reply of that
+		// peer, the framework's own failure replies included
+		var plugged erpc.Session
+		var pluggedRt world.Routes
+		connectPlugged := func() {
+			if plugged != nil && plugged.Health() {
+				return
+			}
+			pl := e.NewPeer("plugged", erpc.PeerConfig{}, secure.NewPlugin(100017, "cipherkey1234567"), ignorecase.NewIgnoreCase())
+			pluggedRt = e.RegisterStd(pl)
+			plugged, _, _, _ = e.ServePair(cli, pl, pf, pf)
+		}
 		tagN := 0
 		mkop := func(kind, route string) *world.Op {
 			tagN++
@@ -212,6 +230,22 @@ func runC15(t *testing.T, seed uint64, m *Mask) *Report {
 				}
 				e.Issue(direct, rt, op, nil)
 				stampPanics = false
+			case "shipped_plugins_notfound":
+				connectPlugged()
+				e.Issue(plugged, pluggedRt, mkop("call", "/nope/on/plugged"), nil)
+			case "shipped_plugins_error":
+				connectPlugged()
+				op := mkop("call", "echo")
+				if e.Gen.Chance(0.5) {
+					op.HCode, op.HStatus = 1011, [3]string{"", "scripted", "cause"}
+					e.Issue(plugged, pluggedRt, op, nil)
+				} else {
+					junk := []byte("\x01\xfe<<{{")
+					plugged.Call(pluggedRt.Echo, &junk, new(world.Payload), erpc.WithBodyCodec('j'))
+				}
+			case "shipped_plugins_ok":
+				connectPlugged()
+				e.Issue(plugged, pluggedRt, mkop("call", "echo"), nil)
 			case "relay_closed_status":
 				// the onward session is closed already: the handler returns the framework's own connection-closed status
 				if relayTarget == nil {
